@@ -378,9 +378,9 @@ inline bool do_decode_resize(std::vector<T>& v, const uint8_t*& pos, const uint8
     {
         return false;
     }
-    if (size_t(n) > size_t(end - pos))
+    if (size_t(n) > size_t(end - pos) / (codec_traits<T>::size > 0 ? size_t(codec_traits<T>::size) : 1))
     {
-        /// each element occupies at least one byte: cannot be satisfied, don't allocate
+        /// each element occupies its fixed size or at least one byte: cannot be satisfied, don't allocate
         return false;
     }
     v.resize(n);
